@@ -16,6 +16,9 @@ type executionContext struct {
 }
 
 func (e *executionContext) AppendLog(ctx context.Context, log *ledger.Log) (*ledger.ChainedLog, chan struct{}, error) {
+	if e.parameters.IdempotencyKey != "" {
+		log = log.WithIdempotencyKey(e.parameters.IdempotencyKey)
+	}
 	if e.parameters.DryRun {
 		ret := make(chan struct{})
 		close(ret)
